@@ -294,6 +294,11 @@ class Sym:
         if ot is None:
             return NotImplemented
         a, b = s.t, ot
+        if a is b and a.op != "c":
+            # comparing a value with itself: a structural tie (e.g. maximum(x, max(x)) at the argmax)
+            e = _EngineRef.engine
+            if e is not None and e.path is not None:
+                e.path.boundary.append(tm._mk("==", (a, a), None, "B"))
         if kind == "<":
             return SymBool(tm.lt(a, b), ("<", a, b))
         if kind == "<=":
